@@ -136,7 +136,8 @@ class SearchLoop(LoopSpec):
     def havoc(self, I, fr):
         g = I.ghost
         if self.acc is not None:
-            fr.locals[self.acc] = []
+            from contracts.negotiation import PriorList
+            fr.locals[self.acc] = PriorList(self.acc)
         else:
             # an earlier iteration may or may not have remembered a (convertible) candidate already
             if I.choose(2, "a candidate is already remembered") == 0:
